@@ -16,7 +16,8 @@ VERIF = common.VERIF
 # ------------------------------------------------------------------------------------------------
 FS_MODEL = ("async-std replaced by /verif/kani/shims/async-std: synchronous in-memory file-system model "
             "(write cache over-approximated: any amount of accepted bytes may reach the disk after each write, "
-            "flush/Drop drain everything; every subset of operations may fail; rename is atomic)")
+            "flush/Drop drain everything; every subset of operations may fail; after a failed drain that moved bytes the whole cache is "
+            "sent again by the next drain, as async-std does (duplicated fragment); rename is atomic)")
 DESUGAR = ("codegen/generate.rs is desugared textually before compilation (async fn->fn, .await removed, "
            "async blocks->closures, #[async_trait] dropped); task::spawn/block_on run their closure inline, "
            "so there is exactly one schedule: the sequential one async-std's single block_on produces")
